@@ -294,11 +294,25 @@ def handle : List String → String
     match hexToList? inp, parseNats? ns ",", (if sends == "-" then some [] else (sends.splitOn ",").mapM (parseNats? · ":")) with
     | some inp, some ns, some sends => runRwio inp ns sends
     | _, _, _ => "bad-op"
+  | ["xell", x, _pre, _seed, ell] =>
+    -- the encoding is the sender's choice (read back from the real code): it must decode to x
+    match hexToNat? x, hexToList? ell with
+    | some x, some ell =>
+      let d := Ellswift.decode ell
+      listToHexTok ell ++ " " ++ optHex (d.map (natBE · 32)) ++ " " ++
+        (if ell.length == 64 && d == some (x % BV.Secp256k1.p) then "ok" else "bad")
+    | _, _ => "bad-op"
+  | ["create", _pre, _seed, priv, ell] =>
+    match hexToNat? priv, hexToList? ell with
+    | some priv, some ell =>
+      hex32 priv ++ " " ++ listToHexTok ell ++ " " ++ optHex ((Ellswift.decode ell).map (natBE · 32)) ++
+        " " ++ optHex ((BV.Secp256k1.mulG (priv % BV.Secp256k1.n)).x?.map (natBE · 32))
+    | _, _ => "bad-op"
   | ["xell", x, pre, seed] =>
     match hexToNat? x, hexToList? pre, hexToList? seed with
     | some x, some pre, some seed =>
       match Ellswift.createLoop (x % BV.Secp256k1.p) 4096 (rndStream pre seed (33 * 256)) with
-      | some (ell, _) => listToHex ell ++ " " ++ optHex ((Ellswift.decode ell).map (natBE · 32))
+      | some (ell, _) => listToHex ell ++ " " ++ optHex ((Ellswift.decode ell).map (natBE · 32)) ++ " ok"
       | none => "err"
     | _, _, _ => "bad-op"
   | ["conc", mode, sessions] =>
